@@ -192,6 +192,9 @@ func (x *gg) refCandidates(self string) []*spec.UserType {
 		if t.Def == nil && (t.Name != self || !x.opts.Broken || !x.chance(1, 3)) {
 			continue // under construction; a reference to self makes the type recursive
 		}
+		if t.Kind == "result" {
+			continue // only returned by methods (genMethod)
+		}
 		out = append(out, t)
 	}
 	return out
@@ -479,6 +482,20 @@ func (x *gg) genTypes() {
 	if x.chance(2, 5) {
 		x.genDerived()
 	}
+	if !x.opts.Broken && x.chance(1, 2) {
+		// a result type with two views that both list every attribute (the projection is the identity, so the round
+		// trip oracle needs no view): methods returning it go through the viewed-result plumbing of the gRPC code
+		vr := &spec.UserType{Name: "ViewedReply", Kind: "result", Def: &spec.Type{Kind: spec.Object}}
+		vr.Def.Attrs = []*spec.Attr{
+			{Name: "ident", Type: &spec.Type{Kind: spec.String}, Tag: 1},
+			{Name: "count", Type: &spec.Type{Kind: spec.Int32}, Tag: 2},
+			{Name: "note", Type: &spec.Type{Kind: spec.String}, Tag: 3},
+		}
+		all := []spec.ViewAttr{{Name: "ident"}, {Name: "count"}, {Name: "note"}}
+		vr.Views = []*spec.View{{Name: "default", Attrs: all}, {Name: "tiny", Attrs: all}}
+		x.s.Types = append(x.s.Types, vr)
+		x.s.AddFeature("result-type-with-views")
+	}
 }
 
 // genDerived adds a type that inherits from an earlier object type. Extend(base): every base attribute is merged
@@ -701,9 +718,19 @@ func (x *gg) genMethod(sv *spec.Service, name string) {
 			x.s.AddFeature("stream-payload-object")
 		}
 		m.Result = x.genBody(m.Stream == "client")
+		// streamed payloads next to a result type with several views (the server stream's Recv and the viewed result
+		// share generated plumbing)
+		if vr := x.s.Type("ViewedReply"); vr != nil && x.chance(2, 3) {
+			m.Result = &spec.Attr{Type: &spec.Type{Kind: spec.Ref, Ref: vr.Name}}
+			x.s.AddFeature("stream-payload-with-viewed-result")
+		}
 	default:
 		m.Payload = x.genBody(true)
 		m.Result = x.genBody(m.Stream == "")
+		if vr := x.s.Type("ViewedReply"); vr != nil && x.chance(1, 4) {
+			m.Result = &spec.Attr{Type: &spec.Type{Kind: spec.Ref, Ref: vr.Name}}
+			x.s.AddFeature("viewed-result")
+		}
 	}
 	if o := x.objectOf(m.Payload); o != nil && m.StreamP == nil {
 		taken := map[string]bool{}
